@@ -400,6 +400,85 @@ def run_memory(c):
         shutil.rmtree(side, ignore_errors=True)
 
 
+def run_memory_meta(c):
+    """metadata.json of a real entry is damaged while output.pkl stays intact (the state a killed writer or a disk
+    fault leaves): f(x), call_and_shelve(x).get() and check_call_in_cache(x) must not raise, hang or lie"""
+    d = tempfile.mkdtemp(prefix="verif-c14mm-")
+    try:
+        comp = tuple(c["compress"]) if isinstance(c["compress"], list) else c["compress"]
+        mem = joblib.Memory(d, verbose=0, compress=comp)
+        calls = []
+
+        def f(x):
+            calls.append(x)
+            return make_obj(c["obj"], x)
+        f.__module__ = "verif_c14"
+        f.__qualname__ = f.__name__ = "f"
+        cf = mem.cache(f)
+        truth = make_obj(c["obj"], 1)
+        if not deep_eq(cf(1), truth) or calls != [1]:
+            return {"harness_error": "first call did not compute"}
+        entry = os.path.join(cf.store_backend.location, cf.func_id, cf._get_args_id(1))
+        mpath = os.path.join(entry, "metadata.json")
+        orig = open(mpath, "rb").read()
+        rng = random.Random(len(orig))
+        damages = []
+        for dmg in c["damage"]:
+            if dmg[0] == "trunc_all":
+                damages += [["trunc", n] for n in range(len(orig))]
+            else:
+                damages.append(dmg)
+
+        def wrapped(fn):
+            if not c.get("werror"):
+                return fn
+            def g():
+                with warnings.catch_warnings():
+                    warnings.simplefilter("error")
+                    return fn()
+            return g
+        res = []
+        for dmg in damages:
+            if dmg[0] == "trunc":
+                bad = orig[:dmg[1]]
+            elif dmg[0] == "extend_ascii":
+                bad = orig + b" " * (dmg[1] - 1) + b"x"
+            elif dmg[0] == "extend_bin":       # not valid UTF-8
+                bad = orig + b"\xff" * dmg[1]
+            elif dmg[0] == "garbage":
+                bad = bytes([0xff, 0xfe, 0x00, 0x80]) + bytes(rng.getrandbits(8) for _ in range(dmg[1]))
+            elif dmg[0] == "double":
+                bad = orig + orig
+            else:
+                bad = None                      # missing
+            if bad is None:
+                os.unlink(mpath)
+            else:
+                with open(mpath, "wb") as fh:
+                    fh.write(bad)
+            out = {}
+            del calls[:]
+            for name, fn in (("call", lambda: cf(1)), ("shelve", lambda: cf.call_and_shelve(1).get()),
+                             ("check", lambda: cf.check_call_in_cache(1))):
+                r = guarded(wrapped(fn))
+                if r[0] == "ok":
+                    if name == "check":
+                        out[name] = "E" if isinstance(r[1], bool) else "D"
+                    else:
+                        out[name] = "E" if deep_eq(r[1], truth) else "D"
+                else:
+                    out[name] = ("R:" if r[0] == "raises" else "H:") + str(r[1])
+            res.append({"damage": dmg, "len": -1 if bad is None else len(bad), "orig_len": len(orig), "out": out,
+                        "recomputed": len(calls)})
+            with open(mpath, "wb") as fh:
+                fh.write(orig)
+            if any(v.startswith("H") for v in out.values()):
+                break
+        return {"results": res}
+    finally:
+        shutil.rmtree(d, ignore_errors=True)
+
+
 def main():
     for line in sys.stdin:
         line = line.strip()
@@ -415,6 +494,8 @@ def main():
                 r = run_memory(c)
             elif c["kind"] == "junk":
                 r = run_junk(c)
+            elif c["kind"] == "memmeta":
+                r = run_memory_meta(c)
             else:
                 r = c13_impl.run_read(c)
         except BaseException as e:  # harness-level failure is reported, not hidden
